@@ -490,7 +490,12 @@ func (e *env) rpmChain(n int) []chainElem {
 		src := vs[rnd.Intn(len(vs))]
 		vs = append(vs, mutateRpm(rnd, src))
 	}
+	if rnd.Chance(1, 3) {
+		a, b := e.deepRpm(vs[rnd.Intn(len(vs))])
+		vs = append(vs, a, b)
+	}
 	sort.SliceStable(vs, func(i, j int) bool { return cmpRpm(vs[i], vs[j]) < 0 })
+	e.countSlots("rpm", len(vs), func(i, j int) string { return slotRpm(vs[i], vs[j]) })
 	var out []chainElem
 	rank := 0
 	for i, v := range vs {
@@ -824,7 +829,12 @@ func (e *env) debChainFrom(n int, zeroBase bool) []debElem {
 	for len(vs) < n {
 		vs = append(vs, mutateDeb(rnd, vs[rnd.Intn(len(vs))]))
 	}
+	if rnd.Chance(1, 3) {
+		a, b := e.deepDeb(vs[rnd.Intn(len(vs))])
+		vs = append(vs, a, b)
+	}
 	sort.SliceStable(vs, func(i, j int) bool { return cmpDeb(vs[i], vs[j]) < 0 })
+	e.countSlots("deb", len(vs), func(i, j int) string { return slotDeb(vs[i], vs[j]) })
 	var out []debElem
 	rank := 0
 	for i, v := range vs {
@@ -991,7 +1001,12 @@ func (e *env) apkChain(n int) []chainElem {
 	for len(vs) < n {
 		vs = append(vs, mutateApk(rnd, vs[rnd.Intn(len(vs))]))
 	}
+	if rnd.Chance(1, 3) {
+		a, b := e.deepApk(vs[rnd.Intn(len(vs))])
+		vs = append(vs, a, b)
+	}
 	sort.SliceStable(vs, func(i, j int) bool { return cmpApk(vs[i], vs[j]) < 0 })
+	e.countSlots("apk", len(vs), func(i, j int) string { return slotApk(vs[i], vs[j]) })
 	var out []chainElem
 	rank := 0
 	for i, v := range vs {
@@ -1177,7 +1192,12 @@ func (e *env) langChain(eco string, n int) []chainElem {
 	for len(vs) < n {
 		vs = append(vs, mutateLang(rnd, eco, vs[rnd.Intn(len(vs))]))
 	}
+	if rnd.Chance(1, 2) {
+		a, b := e.deepLang(eco, vs[rnd.Intn(len(vs))])
+		vs = append(vs, a, b)
+	}
 	sort.SliceStable(vs, func(i, j int) bool { return cmpLang(vs[i], vs[j]) < 0 })
+	e.countSlots(eco, len(vs), func(i, j int) string { return slotLang(vs[i], vs[j]) })
 	var out []chainElem
 	rank := 0
 	for i, v := range vs {
